@@ -23,7 +23,7 @@ VARIABLES phase, kind, rootO, rootC, edit, snapO, copy0, shared0
 vars == <<heap, phase, kind, rootO, rootC, edit, snapO, copy0, shared0>>
 
 DeepKinds == {"deepcopy", "pickle", "deepcopy_with"}
-ShallowKinds == {"copy", "cast", "copy_with"}
+ShallowKinds == {"copy", "cast", "cast_same", "copy_with"}
 NoEdit == [name |-> "none", obj |-> 0, key |-> 0, arg |-> 0]
 
 Init == /\ GenInit /\ phase = "gen" /\ kind = "" /\ rootO = 0 /\ rootC = 0
@@ -45,6 +45,7 @@ DoCopy(kd) ==
                  [] kd = "deepcopy_with" -> SetArg(DeepCopyHeap(heap, Root), Len(heap) + 1, NSlots, 7)
                  [] kd = "copy" -> ShallowCopyHeap(heap, Root, heap[Root].k)
                  [] kd = "cast" -> ShallowCopyHeap(heap, Root, OtherKind(heap[Root].k))
+                 [] kd = "cast_same" -> ShallowCopyHeap(heap, Root, heap[Root].k)
                  [] kd = "copy_with" -> SetArg(ShallowCopyHeap(heap, Root, heap[Root].k),
                                                Len(heap) + 1, NSlots, 7)
      IN /\ heap' = h1
@@ -105,7 +106,8 @@ DeepDisjoint ==
 ShallowFresh ==
   (phase = "copied" /\ kind \in ShallowKinds) => rootC \notin Reach(heap, rootO)
 ShallowValuesShared ==
-  (phase = "copied" /\ kind \in {"copy", "cast"}) => heap[rootC].items = heap[rootO].items
+  (phase = "copied" /\ kind \in {"copy", "cast", "cast_same"}) =>
+     heap[rootC].items = heap[rootO].items
 \* editing any copy never changes what the original reports or builds
 OriginalUnaffected ==
   [][phase # "gen" => /\ Canon(heap', rootO') = Canon(heap, rootO)
